@@ -12,8 +12,8 @@ import (
 	"go/token"
 	"go/types"
 	"os"
-	"reflect"
 	"path/filepath"
+	"reflect"
 	"sort"
 	"strings"
 	"time"
